@@ -195,6 +195,18 @@ def _half_chunk(args):
     return part
 
 
+def _edge_chunk(values):
+    part = core.Part()
+    for value in values:
+        for use_ms, arg in ((False, value), (True, value * 1000.0)):
+            for clause, msg in check_duration(arg, use_ms):
+                part.violation(f"{clause}:edge:{arg!r}:{use_ms}", msg,
+                               {"kind": "edge", "value": arg, "ms": use_ms})
+            part.count("duration_cases")
+            part.count("nontrivial")
+    return part
+
+
 def _int_chunk(values):
     part = core.Part()
     for value in values:
@@ -206,7 +218,7 @@ def _int_chunk(values):
 
 def _dispatch(job):
     return {"esc": _escape_chunk, "dur": _duration_chunk, "half": _half_chunk,
-            "int": _int_chunk, "long": _long_chunk}[job[0]](job[1])
+            "int": _int_chunk, "long": _long_chunk, "edge": _edge_chunk}[job[0]](job[1])
 
 
 def run(ctx):
@@ -225,6 +237,13 @@ def run(ctx):
     span = half_top // 32 + 1
     for start in range(9, half_top, span):
         jobs.append(("half", (start, min(start + span, half_top))))
+    # a hair below / at / above every form threshold (10 s, 60 s, 3600 s), seconds and ms
+    edges = []
+    for thr in (10.0, 60.0, 3600.0):
+        for delta in (0.0, 1e-9, 1e-6, 4e-4, 4.9e-4, 5e-4, 5.1e-4, 1e-3, 0.4999, 0.5, 0.5001):
+            edges += [thr - delta, thr + delta]
+        edges += [math.nextafter(thr, 0), math.nextafter(thr, math.inf)]
+    jobs.append(("edge", sorted(set(edges))))
     ints = list(range(0, 7300)) + list(range(3590, 10 ** 7, 3571)) + [10 ** 7, 86399, 86400, 359999]
     ints += [abs(v) % (10 ** 7) for v in core.seeded_ints(ctx.seed, "c20.int", 8, 24, signed=False)]
     for chunk in core.split(ints, 16):
@@ -242,7 +261,8 @@ def run(ctx):
                 "characters, pre-escaped entities, mixed quotes) parsed back with lxml; every token "
                 f"and four mixed patterns repeated {LONG_COUNTS} times; every "
                 "integer millisecond 0..3,700,000 as ms and as seconds; three floats around every "
-                f"k+0.5 s for k in 9..{half_top}; integers to 1e7; non-trivial = texts mixing "
+                f"k+0.5 s for k in 9..{half_top}; 1e-9..0.5 s either side of the 10 s, 60 s and "
+                "3600 s thresholds; integers to 1e7; non-trivial = texts mixing "
                 "ampersands with other specials, durations within 0.1 s of a half-second boundary",
         "samples": core.rotate(part.samples, ctx.seed, 3) + [{"milliseconds": 3599500},
                                                              {"seconds": 59.5}],
@@ -258,6 +278,8 @@ def run(ctx):
 
 
 def replay(case):
+    if case["kind"] == "edge":
+        return [m for _c, m in check_duration(case["value"], case["ms"])]
     if case["kind"] == "escape":
         return [m for _c, m in check_escape(case["text"])]
     if case["kind"] == "ms":
